@@ -68,11 +68,13 @@ struct Failure {
 };
 
 // Cases of the code under test that do not finish within their per-case time limit (see contained() below) are findings
-// ("hang"), but a systematic hang must not eat the whole shard: after hang_limit() of them the remaining cases of all
+// ("hang"), but a systematic hang must not eat the whole shard: after hang_limit() of them (or 240 s spent waiting for them) the remaining cases of all
 // contained() calls of this process are skipped, counted, and reported as a cap of the run.
 inline int &hang_limit() { static int v = 12; return v; }
 inline long long &hangs() { static long long v = 0; return v; }
 inline long long &skipped_after_hangs() { static long long v = 0; return v; }
+inline long long &hang_seconds() { static long long v = 0; return v; }  // time spent waiting for cases that never finished
+inline bool hang_budget_used() { return hangs() >= hang_limit() || hang_seconds() >= 240; }
 struct Report {
   std::string property, part, tier = "quick";
   std::string rule;
@@ -247,7 +249,7 @@ struct Outcome {
 template <class F, class G>
 void contained(long long lo, long long hi, F fn, G on_result, int per_case_timeout_s = 120) {
   long long next_i = lo;
-  if (hangs() >= hang_limit()) { skipped_after_hangs() += hi - lo; return; }
+  if (hang_budget_used()) { skipped_after_hangs() += hi - lo; return; }
   while (next_i < hi) {
     int fd[2];
     if (pipe(fd) != 0) { perror("pipe"); exit(2); }
@@ -308,7 +310,11 @@ void contained(long long lo, long long hi, F fn, G on_result, int per_case_timeo
     o.what = b;
     on_result(bad, o);
     next_i = bad + 1;
-    if (WIFSIGNALED(st) && WTERMSIG(st) == SIGALRM && ++hangs() >= hang_limit()) { skipped_after_hangs() += hi - next_i; return; }
+    if (WIFSIGNALED(st) && WTERMSIG(st) == SIGALRM) {
+      ++hangs();
+      hang_seconds() += per_case_timeout_s;
+      if (hang_budget_used()) { skipped_after_hangs() += hi - next_i; return; }
+    }
   }
 }
 }  // namespace bsx
